@@ -763,10 +763,22 @@ class Interp:
             elif isinstance(cont, Atom) and cont.name in ("NODE", "EID", "TIME", "LAYER", "IDX") and isinstance(a, Const) and isinstance(a.value, str):
                 # "E" in <node label>: a vertex-id test applied to something that is not a vertex id
                 self.site(fr, "K-VID", node, f"{a!r} in {cont!r}", Mismatch(f"string-membership test on a {cont!r} value (vertex-id test applied to a non-id)"))
-            elif cont == VID and isinstance(a, Const) and isinstance(a.value, str):
-                self.site(fr, "K-VID", node, f"{a!r} in VID", OK)
+            elif isinstance(a, Const) and isinstance(a.value, str) and isinstance(cont, Union) and all((isinstance(m, Atom) and m.name in ("NODE", "EID", "TIME", "LAYER", "IDX")) or isinstance(m, (Seq, Tup)) for m in cont.members):
+                self.site(fr, "K-VID", node, f"{a!r} in {cont!r}", Mismatch(f"string-membership test on a {cont!r} value (vertex-id test applied to a translated object, not to an id)"))
+            elif (cont == VID or cont == STR) and isinstance(a, Const) and isinstance(a.value, str):
+                self.site(fr, "K-VID", node, f"{a!r} in id", OK)
             return
         a0, b0 = deconst(strip_none(a)), deconst(strip_none(b))
+        # a value that is a SIZE on one path and a plain number on another (`s if cond else 0`) is compared as a SIZE
+        for side in ("a", "b"):
+            k = a0 if side == "a" else b0
+            if isinstance(k, Union):
+                strong = {m for m in k.members if m in (SIZE, ORDER)}
+                if len(strong) == 1 and all(m in (SIZE, ORDER, NUM) or isinstance(m, Const) for m in k.members):
+                    if side == "a":
+                        a0 = next(iter(strong))
+                    else:
+                        b0 = next(iter(strong))
         if a0 in (SIZE, ORDER) and b0 in (SIZE, ORDER):
             v = OK if a0 == b0 else Mismatch(f"{a0!r} compared with {b0!r} (size/order off by one)")
             self.site(fr, "K-SIZE", node, f"{a0!r} {type(op).__name__} {b0!r}", v)
